@@ -2,7 +2,7 @@
     forms of [Lib/Bits.v], entry by entry, and each entry has exactly the stated bits. *)
 From Coq Require Import ZArith List Lia Bool.
 From Low Require Import Lib.MachInt Lib.Bits Lib.BitSeq Lib.BitsExtra_bm2 Lib.BitsExtra_bm12
-  Model.BitmapMask Spec.MaskSpec.
+  Model.BitmapMask12 Spec.MaskSpec12.
 Import ListNotations.
 Open Scope Z_scope.
 
